@@ -692,6 +692,40 @@ C03Objects ==
     \cup Objs1("ptrs", BOOLEAN, {FALSE}) \cup Objs2("ptrs", DisSet, {FALSE})
     \cup Objs3L2("map") \cup Objs3L2("ptrs")
     \cup (IF Deep THEN Objs3("map") \cup Objs3("ptrs") ELSE {})
+\* ------------------------------------------------------------------ C03 / C01: map-based and scope-typed members of struct-mapped objects
+\* A MAP-BASED sub-object (NewObjectSchema) as a non-required member of a struct-mapped parent, held by value in a field
+\* of type map[string]any (layout opts) or in an interface field (ptrs.x): omitted, it is built from its own defaults
+\* like any member that is not a pointer (SchemaSem!EffectiveDefault) - and the round trip is the identity.
+MapSub(defs) ==
+    ObjectS("S", << PropS("a", IntS(None, None, None), FALSE, <<>>, <<>>, <<>>, IF defs THEN Some(F64(12)) ELSE None, FALSE, FALSE),
+                    PropS("b", StringS(None, None, None), FALSE, <<>>, <<>>, <<>>, IF defs THEN Some(Str("b")) ELSE None, FALSE, FALSE) >>, "map", FALSE)
+OptsObjects ==
+    { ObjectS("P", << Prop("a", TA, TRUE), PropS("o", MapSub(d), FALSE, <<>>, <<>>, <<>>, dv, FALSE, FALSE) >>, "opts", FALSE) :
+        d \in BOOLEAN, dv \in {None, Some(M("string_any", << <<Str("a"), F64(20)>> >>))} }
+    \cup { ObjectS("P", << Prop("a", TA, FALSE), Prop("x", MapSub(d), FALSE) >>, "ptrs", FALSE) : d \in BOOLEAN }
+OptsRaw ==
+    LET subs == { M("any_any", <<>>), M("string_any", << <<Str("a"), I64(7)>> >>), M("string_any", << <<Str("b"), Str("a")>> >>),
+                  M("string_any", << <<Str("x"), I64(7)>> >>), I64(1) }
+    IN { M("any_any", << <<Str("a"), I64(1)>> >>), M("any_any", <<>>) }
+       \cup { M("any_any", << <<Str("a"), I64(1)>>, <<Str(n), w>> >>) : n \in {"o", "x"}, w \in subs }
+\* A nested SCOPE as a member: absent and without a declared default it stays absent (it is no object-typed member that
+\* gets its root's defaults), so it does not count as set for its siblings' conflicts / required_if
+ScopeMember == ScopeS("L", << ObjectS("L", << PropS("b", StringS(None, None, None), FALSE, <<>>, <<>>, <<>>, Some(Str("a")), FALSE, FALSE) >>, "map", FALSE) >>)
+ScopeMemberObjs ==
+    { ObjectS("C", << PropS("x", ScopeMember, FALSE, <<>>, <<>>, cf, None, FALSE, FALSE),
+                      PropS("c", BoolS, FALSE, <<>>, <<>>, <<"x">>, None, FALSE, FALSE),
+                      PropS("b", TB, FALSE, rif, <<>>, <<>>, None, FALSE, FALSE) >>, lay, FALSE) :
+        cf \in { <<>>, <<"c">> }, rif \in { <<>>, <<"x">> }, lay \in {"ptrs", "map"} }
+    \* by value (a map[string]any field): required, so that absence need not be represented (caveat ii)
+    \cup { ObjectS("P", << Prop("a", TA, TRUE), Prop("o", ScopeMember, TRUE) >>, "opts", FALSE) }
+ScopeMemberRaw ==
+    LET xs == { M("any_any", <<>>), M("string_any", << <<Str("b"), Str("ab")>> >>) } IN
+    { M("any_any", <<>>), M("any_any", << <<Str("c"), B(TRUE)>> >>), M("any_any", << <<Str("b"), Str("a")>> >>),
+      M("any_any", << <<Str("c"), B(TRUE)>>, <<Str("b"), Str("a")>> >>), M("any_any", << <<Str("a"), I64(1)>> >>) }
+    \cup { M("any_any", << <<Str("x"), w>> >>) : w \in xs } \cup { M("any_any", << <<Str("x"), w>>, <<Str("b"), Str("a")>> >>) : w \in xs }
+    \cup { M("any_any", << <<Str("x"), w>>, <<Str("b"), Str("a")>>, <<Str("c"), B(TRUE)>> >>) : w \in xs }
+    \cup { M("any_any", << <<Str("a"), I64(1)>>, <<Str("o"), w>> >>) : w \in xs }
+
 \* ------------------------------------------------------------------ C03: equal IDs on a shorthand chain
 \* The single-property inline shorthand hands a lone non-map value down a chain of single-property objects.  Two
 \* DIFFERENT objects of the chain may carry the same ID - an object nested directly, or the root of a nested scope
@@ -745,6 +779,8 @@ NilFieldRaw(s) ==
 
 InitC03 ==
     \/ \E s \in SameIdChains : \E x \in SameIdRaw : vec = Vec(s, "unser", x)
+    \/ \E s \in OptsObjects : \E x \in OptsRaw : vec = Vec(s, "unser", x)
+    \/ \E s \in ScopeMemberObjs : \E x \in ScopeMemberRaw : vec = Vec(s, "unser", x)
     \/ \E s \in NilFieldObjs :
           \/ \E x \in NilFieldRaw(s) : vec = Vec(s, "unser", x)
           \/ \E x \in NilFieldNat(s) : \E op \in {"valid", "ser"} : vec = Vec(s, op, x)
@@ -836,6 +872,8 @@ BoundedFloats == {s \in FloatSchemas(FloatBP, UnitOpts) : s.min.some \/ s.max.so
 InitC01 ==
     \/ \E s \in C01Scalars : \E x \in ScalarRaw(s) : ~Accepting(s, x) /\ vec = VecChain(s, x)
     \/ \E s \in BoundedFloats : \E x \in NonFiniteRaw(s) : vec = VecChain(s, x)
+    \/ \E s \in OptsObjects : \E x \in OptsRaw : Accepting(s, x) /\ vec = VecChain(s, x)
+    \/ \E s \in ScopeMemberObjs : \E x \in ScopeMemberRaw : Accepting(s, x) /\ vec = VecChain(s, x)
     \* (the chain is run whenever the CODE accepts: these vectors are not filtered by the model's verdict)
     \/ \E s \in MBSchemas : \E x \in MBRaw(s) : vec = VecChain(s, x)
     \/ \E s \in C01Scalars \cup C02Scalars : \E x \in ScalarRaw(s) \cup (IF s.kind = "any" THEN AnyRaw ELSE {}) : Accepting(s, x) /\ vec = VecChain(s, x)
